@@ -121,8 +121,109 @@ def dict_case(col, seed, n_iter):
     col.add(None)
 
 
+def legacy_transform_case(col, seed):
+    """a model in which a calculation hangs directly on a variable's value node (deprecated GraphBuilder.transform): kernels address the
+    new variable by its VARIABLE name; after every transition sigma = exp(sigma_transformed) and the stored log-probability are recomputed"""
+    import warnings
+    sigma = lsl.param(1.0, lsl.Dist(tfd.HalfNormal, scale=2.0), name="sigma")
+    mu = lsl.param(0.0, lsl.Dist(tfd.Normal, loc=0.0, scale=3.0), name="mu")
+    y = lsl.obs(Y, lsl.Dist(tfd.Normal, loc=mu, scale=sigma), name="y")
+    gb = lsl.GraphBuilder().add(y)
+    with warnings.catch_warnings():
+        warnings.simplefilter("ignore")
+        import tensorflow_probability.substrates.jax.bijectors as tfb
+        gb.transform(sigma, tfb.Exp)
+    model = gb.build_model()
+    iface = gs.LieselInterface(model)
+    inp = {"model": "legacy GraphBuilder.transform(sigma, Exp)", "position_keys": ["sigma_transformed (variable name)", "mu"], "seed": seed}
+
+    def check(state, what):
+        st = float(state["sigma_transformed_value"].value)
+        m_ = float(state["mu_value"].value)
+        sg = np.exp(np.float64(st))
+        ll = np.sum(-0.5 * ((Y - m_) / sg) ** 2 - np.log(sg) - 0.5 * np.log(2 * np.pi))
+        got_s, got_ll = float(state["sigma_value"].value), float(np.asarray(state["_model_log_lik"].value))
+        if not (np.isclose(got_s, sg, rtol=1e-4) and np.isclose(got_ll, ll, rtol=2e-4, atol=2e-4)):
+            return {"sig": "native::coherence::direct_value_node_consumer", "what": f"{what}: stored sigma={got_s}, log-lik={got_ll}; recomputed from the stored sigma_transformed={st}, mu={m_}: "
+                    f"sigma={sg}, log-lik={ll}", "input": inp}
+        return None
+
+    st1 = iface.update_state({"sigma_transformed": jnp.float32(-0.53), "mu": jnp.float32(0.4)}, model.state)
+    v = check(st1, "update_state with the variable name as key")
+    if v is None:
+        k1, k2 = gs.RWKernel(["sigma_transformed"], initial_step_size=0.7), gs.RWKernel(["mu"], initial_step_size=0.7)
+        for i, k in enumerate((k1, k2)):
+            k.set_model(iface)
+            k.identifier = f"k{i}"
+        seq = KernelSequence([k1, k2])
+        key = jax.random.PRNGKey(seed)
+        ms, ks = model.state, seq.init_states(key, model.state)
+        ep = EpochConfig(EpochType.POSTERIOR, 8, 1, None).to_state(1, 0)
+        tr = jax.jit(seq.transition)
+        for it in range(8):
+            key, sub = jax.random.split(key)
+            o = tr(sub, ks, ms, ep)
+            ms, ks = o.model_state, o.kernel_states
+            v = check(ms, f"iteration {it}")
+            if v:
+                break
+    col.add(v)
+
+
+def order_case(col, via_engine):
+    """two deterministic Gibbs kernels on disjoint blocks whose composition is order-sensitive (a <- b + 1, then b <- 2a + 1);
+    identifiers chosen so that alphabetical order differs from the configured order"""
+    inp = {"kernels": ["scale_block: a <- b+1", "loc_block: b <- 2a+1"], "via_engine": via_engine}
+    model = gs.DictInterface(lambda s_: 0.0)
+    k1 = gs.GibbsKernel(["a"], lambda key, ms: {"a": ms["b"] + 1.0})
+    k2 = gs.GibbsKernel(["b"], lambda key, ms: {"b": 2.0 * ms["a"] + 1.0})
+    k1.identifier, k2.identifier = "scale_block", "loc_block"
+    a, b, want = 0.0, 0.0, []
+    for _ in range(4):
+        a = b + 1.0
+        b = 2.0 * a + 1.0
+        want.append((a, b))
+    if via_engine:
+        bld = gs.EngineBuilder(seed=1, num_chains=1)
+        bld.set_epochs([EpochConfig(EpochType.INITIAL_VALUES, 1, 1, None), EpochConfig(EpochType.POSTERIOR, 4, 1, None)])
+        bld.set_model(model)
+        bld.set_initial_values({"a": jnp.float32(0.0), "b": jnp.float32(0.0)})
+        bld.add_kernel(k1); bld.add_kernel(k2)
+        bld.show_progress = False
+        eng = bld.build()
+        eng.sample_all_epochs()
+        s_ = eng.get_results().get_posterior_samples()
+        got = [(float(x), float(y)) for x, y in zip(np.asarray(s_["a"])[0], np.asarray(s_["b"])[0])]
+        idents = [k.identifier for k in eng._kernel_sequence.get_kernels()] if hasattr(eng, "_kernel_sequence") else None
+    else:
+        for k in (k1, k2):
+            k.set_model(model)
+        seq = KernelSequence([k1, k2])
+        ms = {"a": jnp.float32(0.0), "b": jnp.float32(0.0)}
+        key = jax.random.PRNGKey(0)
+        st = seq.init_states(key, ms)
+        ep = EpochConfig(EpochType.POSTERIOR, 4, 1, None).to_state(1, 0)
+        got = []
+        for _ in range(4):
+            o = seq.transition(key, st, ms, ep)
+            ms, st = o.model_state, o.kernel_states
+            got.append((float(ms["a"]), float(ms["b"])))
+        idents = [k.identifier for k in seq.get_kernels()]
+    ok = got == want and (idents is None or idents == ["scale_block", "loc_block"])
+    col.add(None if ok else {"sig": "native::order::configured_order", "what": f"kernels did not run in the configured order: states {got}, expected {want}; sequence order {idents}", "input": inp})
+
+
 def bounded(tier, seed):
     col = util.Collector()
+    for via_engine in (False, True):
+        try:
+            order_case(col, via_engine)
+        except Exception as e:
+            col.add({"sig": f"native::order::exception::{type(e).__name__}", "what": str(e)[:200], "input": {"via_engine": via_engine}})
+    try:
+        legacy_transform_case(col, seed + 2)
+    except Exception as e:
+        col.add({"sig": f"native::coherence::exception::{type(e).__name__}", "what": str(e)[:200], "input": {"scenario": "legacy transform, variable-name keys"}})
     n = 12 if tier == "quick" else 60
     combos = [(True, "Gibbs"), (False, "Gibbs"), (False, "NUTS")] if tier == "quick" else [(a, s) for a in (True, False) for s in ("Gibbs", "NUTS", "IWLS")]
     for au, second in combos:
@@ -133,7 +234,8 @@ def bounded(tier, seed):
         "rule": (f"BOUNDED: Liesel model (mu, log_sigma, derived sigma=exp(log_sigma), leaf pred=2mu+1, 5 observations) with kernel sequences RW(mu) + "
                  f"{{Gibbs, NUTS, IWLS}}(log_sigma), auto_update on and off, {n} jitted iterations each: after every single-kernel transition and every iteration the stored sigma, pred, "
                  "log-lik, log-prior, log-prob are compared with closed-form recomputation from the stored parameters (float64), and the other block must be bitwise "
-                 f"unchanged; same blockwise check on a dict model with RW + HMC. seed={seed}"),
+                 f"unchanged; same blockwise check on a dict model with RW + HMC; a model built with the deprecated GraphBuilder.transform (a calculation directly on a value node) sampled with variable-name position keys; two order-sensitive deterministic Gibbs kernels with "
+                 f"identifiers whose alphabetical order differs from the configured order (bare KernelSequence and through EngineBuilder). seed={seed}"),
         "samples": [{"auto_update": False, "kernels": ["RW(mu)", "Gibbs(log_sigma)"]}],
         "exhaustive": False, "violations": col.violations,
     }
